@@ -4,6 +4,7 @@ import (
 	"bytes"
 	"encoding/gob"
 	"fmt"
+	"strings"
 
 	"github.com/valyala/fastjson"
 )
@@ -96,6 +97,77 @@ func (l Link) GetLink() IRI {
 // GetType returns the Type corresponding to the Mention object
 func (l Link) GetType() ActivityVocabularyType {
 	return l.Type
+}
+
+// Equals verifies if our receiver Link is equals with the "with" Link
+func (l Link) Equals(with Item) bool {
+	if IsNil(with) || !IsLink(with) {
+		return false
+	}
+	result := true
+	err := OnLink(with, func(w *Link) error {
+		if !l.ID.Equals(w.ID, true) {
+			result = false
+			return nil
+		}
+		if !strings.EqualFold(string(l.Type), string(w.Type)) {
+			result = false
+			return nil
+		}
+		if len(w.Name) > 0 {
+			if !w.Name.Equals(l.Name) {
+				result = false
+				return nil
+			}
+		}
+		if len(w.Rel) > 0 {
+			if !l.Rel.Equals(w.Rel, false) {
+				result = false
+				return nil
+			}
+		}
+		if len(w.MediaType) > 0 {
+			if w.MediaType != l.MediaType {
+				result = false
+				return nil
+			}
+		}
+		if w.Height > 0 {
+			if w.Height != l.Height {
+				result = false
+				return nil
+			}
+		}
+		if w.Width > 0 {
+			if w.Width != l.Width {
+				result = false
+				return nil
+			}
+		}
+		if w.Preview != nil {
+			if !ItemsEqual(l.Preview, w.Preview) {
+				result = false
+				return nil
+			}
+		}
+		if len(w.Href) > 0 {
+			if !l.Href.Equals(w.Href, false) {
+				result = false
+				return nil
+			}
+		}
+		if len(w.HrefLang) > 0 {
+			if w.HrefLang != l.HrefLang {
+				result = false
+				return nil
+			}
+		}
+		return nil
+	})
+	if err != nil {
+		result = false
+	}
+	return result
 }
 
 // MarshalJSON encodes the receiver object to a JSON document.
